@@ -100,6 +100,20 @@ func Spellings() []Input {
 			add("call argument "+e, "\t@d("+e+")")
 		}
 	}
+	// trailing comments before a closing brace on the next line, raw strings in multi-line attribute
+	// expressions, control characters written as character references, legacy call padding
+	for _, body := range []string{
+		"\t<div>{ x // c\n\t}</div>", "\t{ x // c\n\t}", "\t{{ y := x // c\n\t}}\n\t{ y }", "\t<div title={ x // c\n\t}></div>",
+		"\t<div title={ x /* c */ }>{ x /* c */ }</div>", "\t<div title={ `raw\nstring` }></div>", "\t<div class={ \"a\",\n\t\t`b\nc`,\n\t}></div>",
+		"\t<div class={\n\t\t\"a\",\n\t\t\"b\" }></div>", "\t<div class={ \"a\",\n\t\t\"b\",\n\t}></div>",
+		"\t<div title=\"&#10;\">t</div>", "\t<div title=\"a&#13;b\">t</div>", "\t<div title=\"&#9;x\">t</div>", "\t<div title=\"a\nb\">t</div>", "\t<div title='&#39;&quot;'>t</div>",
+		"\t{!  c() }", "\t{! c()  }", "\t{!c()}", "\t<div>{! c() }</div>",
+		"\t@c() {\n\t\t{ x }\n\t}\n\t@c()", "\t<div>@c()</div>", "\t<input\n\t\ttype=\"text\"\n\t\tvalue={ x }\n\t/>", "\t<input type=\"text\" value={ x }>",
+		"\t<!DOCTYPE html>\n\t<html><body>{ x }</body></html>", "\t<textarea>\n  keep\n</textarea>", "\t<pre>\n  keep { x }\n</pre>",
+		"\tif b { <b>y</b> }", "\tfor _, v := range xs { <b>{ v }</b> }", "\tswitch x {\n\tcase \"a\": <b>a</b>\n\tdefault: <b>d</b>\n\t}",
+	} {
+		add("misc "+body, body)
+	}
 	return in
 }
 
